@@ -83,6 +83,12 @@ func Walk(ctx context.Context, fileSystem fs.FS, prefix, delimiter, marker strin
 
 	err := fs.WalkDir(fileSystem, root, func(path string, d fs.DirEntry, err error) error {
 		if err != nil {
+			// an entry below the starting point that has vanished since its
+			// parent was read (a concurrent delete pruned it) is skipped;
+			// it must not end the walk and void what has been collected
+			if path != root && (errors.Is(err, fs.ErrNotExist) || errors.Is(err, syscall.ENOTDIR)) {
+				return nil
+			}
 			return err
 		}
 		if ctx.Err() != nil {
@@ -144,6 +150,10 @@ func Walk(ctx context.Context, fileSystem fs.FS, prefix, delimiter, marker strin
 				// TODO: can we do better here rather than a second readdir
 				// per directory?
 				ents, err := fs.ReadDir(fileSystem, path)
+				if errors.Is(err, fs.ErrNotExist) || errors.Is(err, syscall.ENOTDIR) {
+					// removed by a concurrent delete: nothing to list
+					return skipflag
+				}
 				if err != nil {
 					return fmt.Errorf("readdir %q: %w", path, err)
 				}
